@@ -1204,6 +1204,15 @@ def normalise_module(modname, tree):
   for q, (fn, owner, cls) in function_table(tree).items():
     if q in inv:
       known = set(inv[q]['locals'])
+      # two copies of a block rolled into `for x in (a, b):` are unrolled
+      # again (only loops the reference function does not have)
+      if any(isinstance(x, ast.For) and isinstance(x.iter, (ast.Tuple,
+                                                           ast.List))
+             for x in ast.walk(fn)):
+        from .model import _Unroll
+        ref_iters = {it for it, _ in inv[q].get('loops') or []}
+        new_fn = _Unroll(ref_iters).visit(fn)
+        ast.fix_missing_locations(fn)
       if inv[q].get('returns'):
         name_returns(fn, inv[q]['returns'])
       before = local_names(fn)
